@@ -24,6 +24,7 @@ type Result struct {
 	Pkg          string            `json:"pkg"`
 	Bounds       map[string]int    `json:"bounds"`
 	Unwind       map[string]int    `json:"unwind_overrides,omitempty"`
+	UnwindUnused []string          `json:"unwind_overrides_unmatched,omitempty"`
 	Threads      []string          `json:"threads"`
 	Ops          int               `json:"op_instances"`
 	YieldVars    int               `json:"schedule_vars"`
@@ -209,6 +210,12 @@ func main() {
 			}
 		}
 		res.EncodeS = time.Since(t0).Seconds()
+		for k := range res.Unwind {
+			if !unwindHit[k] {
+				res.UnwindUnused = append(res.UnwindUnused, k)
+				fmt.Fprintln(os.Stderr, "gobmc: unwind override matched no loop:", k)
+			}
+		}
 		w.fill(res)
 		t1 := time.Now()
 		w.solveAll(res, *solver, *timeout, *par, *only, *keep, *noloops)
